@@ -98,7 +98,7 @@ impl SeqModel {
 
     pub fn apply(&mut self, e: &Effect) -> Result<(), String> {
         match e {
-            Effect::Nop => {}
+            Effect::Nop | Effect::Quote { .. } | Effect::Link { .. } => {}
             Effect::TextInsert { c, at, s, attrs } => {
                 let u = self.units(c).ok_or(format!("model has no text {}", c))?;
                 let a = match attrs {
